@@ -32,7 +32,12 @@ VALID_PIECES = [b'a=b', b'k=1', b'x-y=z_w', b'A0=-5', b'q=/p/q.r', b'k_=.',
                 b'key=007', b'n=-', b'm=a/b', b'Z9_=9Z', b'a=1.5',
                 b'big=1234567890123456789', b'neg=-999999999999999999',
                 b'u64=18446744073709551615', b'my-option=value',
-                b'pad=000000000000000000007']
+                b'pad=000000000000000000007',
+                # options that mean something on other kinds of section:
+                # on a container they are options like any other
+                b'length=-1', b'length=12', b'length=n/a', b'indent=x',
+                b'line_endings=mac', b'format=yaml', b'type=x',
+                b'version=9', b'mimetype=text/html']
 RULE = ('seeded option strings (length up to ~12 symbols over a 21-symbol '
         'alphabet, biased to one edit away from a valid option list) placed '
         'on a change/file header of a well-formed file, in 4 header '
@@ -201,7 +206,8 @@ def generate(rng, tier, cls):
             'blanks': rng.choice([0] * 20 + [1, 3, 200, 1200, 5000]),
             'lead': rng.choice([0] * 12 + [1, 2]),
             'mutate': rng.randint(1, 5) if rng.chance(0.08) else None,
-            'hdr_ws': rng.choice([None] * 15 + ['20', '09', '2020', '0b']),
+            'hdr_ws': rng.choice([None] * 15 + ['20', '09', '2020', '0b',
+                                                'efbbbf', 'fffe']),
             'blanks2': rng.randint(80, 300),
             'block_size': rng.choice([None, None, 1, 5, 97])}
 
@@ -284,7 +290,7 @@ def execute(scn, L):
         blanks = scn['blanks2']
     ws = b''
 
-    if scn.get('hdr_ws') in ('20', '09', '2020', '0b'):
+    if scn.get('hdr_ws') in ('20', '09', '2020', '0b', 'efbbbf', 'fffe'):
         ws = bytes.fromhex(scn['hdr_ws'])
 
     data, idx = build(ctx, optstr, crlf, own_lf, blanks,
